@@ -6,6 +6,7 @@ import LyModel.Valid.WellFormed
 import LyModel.Valid.LemmasNpCont
 import LyModel.Valid.LemmasCaseStable
 import LyModel.Valid.LemmasNpValidate
+import LyModel.Valid.LemmasCaseExact
 /-!
 # C07 — validation is an idempotent normalisation whose reported changes are exact
 
@@ -52,6 +53,48 @@ theorem implicit_exact (S : Schema) (o : VOpts) (cx : Cx) (ks : List STree) (sib
     (∀ sid, hasInst (implNodes S o cx ks sibs).1 sid = (hasInst sibs sid || ks.any (fun k => wantsImplicit o k && k.sid == sid))) ∧
     (∀ x ∈ (implNodes S o cx ks sibs).1, x ∈ sibs ∨ (x.flags = { dflt := true } ∧ x.kids = [] ∧ ks.any (·.sid == x.sid) = true)) :=
   ⟨implNodes_mono S o cx ks sibs, implNodes_hasInst S o cx ks sibs, implNodes_out S o cx ks sibs⟩
+
+/-- **`implicit_exact` through choices** (one sibling level — the children of a data node or the top level —, choices and cases in
+any nesting; the repaired variant of F180): `lyd_new_implicit` keeps every node that was there; every node that was not there is
+flagged default only and has no children; and afterwards a schema node has an instance **iff** it had one or is *in use*
+(`wantL`): a node that gets implicit data (`wantsImplicit`: non-presence container, leaf with a default, leaf-list with defaults,
+not state data under `LYD_IMPLICIT_NO_STATE`) that is a direct child of the level, or sits in the **selected** case of a choice of the
+level (`wantChoice_sel`, `selCase`: the first case that has data, else — no case of the choice has data — the default case; RFC 7950
+§7.9.3), recursively through the choices nested in that case — judged on the instances present BEFORE the call (what is created
+for one choice does not change the selection in another: the data nodes of the level have different ids, `Nodup`).  Hypotheses:
+the children of choices are cases (`kindsOkL`) and the ids differ; both decidable, true of every parsed schema. -/
+theorem implicit_exact_choice (X : SchemaX) (o : VOpts) (cx : Cx) (ks : List STree) (sibs : List DNode)
+    (hq : X.q.implicitInnerCase = false) (hk : kindsOkL ks = true) (hnd : (dataSidsL ks).Nodup) :
+    (∀ x ∈ sibs, x ∈ (implL X o cx ks sibs).1) ∧
+    (∀ sid, hasInst (implL X o cx ks sibs).1 sid = (hasInst sibs sid || wantL o (hasInst sibs) ks sid)) ∧
+    (∀ x ∈ (implL X o cx ks sibs).1, x ∈ sibs ∨ (x.flags = { dflt := true } ∧ x.kids = [])) :=
+  ⟨implL_keeps X o cx ks sibs, implL_exact X o cx hq ks hk hnd sibs, implL_onlyAdds X o cx ks sibs⟩
+
+/-- schema of the witness F180: `choice o { case a { choice i { case x { leaf u; } } leaf d { default "9"; } } }` -/
+def S180 : Schema := { modName := "m", nodes := [
+  { depth := 0, kind := .choice, name := "o" },
+  { depth := 1, kind := .case, name := "a" },
+  { depth := 2, kind := .choice, name := "i" },
+  { depth := 3, kind := .case, name := "x" },
+  { depth := 4, kind := .leaf, name := "u" },
+  { depth := 2, kind := .leaf, name := "d", dflts := [[57]] }] }
+def X180 (defect : Bool) : SchemaX := { SchemaX.ofSchema S180 with q := { Quirks.fixed with implicitInnerCase := defect } }
+
+/-- non-vacuity: with `u` set, case `a` is selected and its default `d` (schema id 5) is in use; the repaired code creates it -/
+example : (X180 false).q.implicitInnerCase = false ∧ kindsOkL (X180 false).top = true ∧ (dataSidsL (X180 false).top).Nodup ∧
+    wantL {} (hasInst [.term 4 {} [] [49]]) (X180 false).top 5 = true ∧
+    (implL (X180 false) {} {} (X180 false).top [.term 4 {} [] [49]]).1.map (·.sid) = [4, 5] := by
+  refine ⟨rfl, by decide, by decide, by decide, by decide⟩
+
+/-- **the defective variant F180 is not exact**: the node found (`u`) sits in the nested case `x`, only `x` is completed, the default
+`d` of the outer case `a` is not created although it is in use -/
+theorem implicit_exact_choice_F180_fails :
+    ¬ ∀ (X : SchemaX) (o : VOpts) (cx : Cx) (ks : List STree) (sibs : List DNode), kindsOkL ks = true → (dataSidsL ks).Nodup →
+      ∀ sid, hasInst (implL X o cx ks sibs).1 sid = (hasInst sibs sid || wantL o (hasInst sibs) ks sid) := by
+  intro h
+  have := h (X180 true) {} {} (X180 true).top [.term 4 {} [] [49]] (by decide) (by decide) 5
+  revert this
+  decide
 
 /-! ## auto-deletion -/
 
@@ -416,8 +459,13 @@ example :
 -- OPEN: `valdiff_exact` (applying the returned diff to the input gives the output; the diff is empty iff nothing changed).
 -- The model composes `Valid.ValDiff.valDiff` with the `diff` component's `apply`; laws `valdiff-apply` / `valdiff-eq`
 -- evaluate it on the implementation; findings F177, F178, F179 are its counterexamples in the code.
--- OPEN: `implicit_exact` through choices (default case chosen iff no case has data): `dflt_flag_sound` gives soundness
--- for all schemas, exactness is proved for the choice-free level (`implicit_exact`); law `implicit` against `rfcdefaults`.
+-- (`implicit_exact` through choices: proved level-wise for the repaired variant, `implicit_exact_choice`; false for the
+-- defective variant F180, `implicit_exact_choice_F180_fails`.)
+-- OPEN: `implicit_exact` for the WHOLE tree against `rfcComplete` (SpecDefaults.lean: recursion into containers and list entries,
+-- sibling order of the created nodes); law `implicit` of tools/checks/c07.py.
+-- OPEN: `autodel_exact` through choices as one statement about `lyd_validate_new` (which default nodes a whole call removes):
+-- proved are the step (`autodel_exact`) and, inside `validate_idempotent_choice`, that exactly the explicit siblings are kept
+-- and no surviving default node is a leftover of a dead case (`newLoop_first`, `validateNew_first`).
 -/
 
 end LyModel.Props.C07
